@@ -75,7 +75,8 @@ def tiny_conversion(ctx, q, bs, desc):
         conv.segy_to_sgz(sgy, out, q, bs)
         probs = conv.fidelity_problems(out, conv.segy_cube(sgy)[0], q, is2d=True)
     else:
-        n = (5, 6, 7)
+        # extents whose paddings differ per axis and per block dimension (a swapped index must show)
+        n = (5, 9, 7) if bs[0] * bs[1] > 4096 else (bs[0] + 1, 2 * bs[1] + 1 if bs[1] <= 32 else bs[1] + 1, 7)
         arr = gen.cube(rng, n)
         conv.numpy_to_sgz(arr, out, q, bs)
         probs = conv.fidelity_problems(out, arr, q)
